@@ -7,7 +7,7 @@ CONSTANTS
   LegacyBreak = FALSE
   MetricDefs <- FlatMetrics
   SlotDefs <- FlatSlots5
-  Sizes <- Sz124
+  Sizes <- Sz14
   WWs = {1, 2}
   MWs = {1}
   NWs = {1}
